@@ -75,6 +75,49 @@ def pragma_parts(b, kind):
     raise ValueError(kind)
 
 
+DEEP_KINDS = ('parentheses', 'unary', 'left_deep_add', 'right_deep_power', 'calls', 'members', 'index', 'ternary', 'assign_chain',
+              'blocks', 'if_else', 'loops', 'try')
+NESTING_BOUND = 64
+
+
+def tree_depth(v):
+    """largest number of Statement / Expression nodes on a path below v"""
+    from ..ptgen import direct_subnodes
+    own = 1 if v.ty in ('Statement', 'Expression') else 0
+    return own + max([tree_depth(c) for c in direct_subnodes(v)] or [0])
+
+
+def deep_body(b, kind, n):
+    v, num = b.var, b.num
+    e = b.bin('Add', v('x'), num(1))
+    st = None
+    for i in range(n):
+        if kind == 'parentheses': e = b.paren(e)
+        elif kind == 'unary': e = b.un('Not' if i % 2 else 'UnaryMinus', e if sol.level(e) <= 2 else b.paren(e))
+        elif kind == 'left_deep_add': e = b.bin('Add', e, v('y'))
+        elif kind == 'right_deep_power': e = b.bin('Power', v('y'), e if sol.level(e) <= 3 else b.paren(e))
+        elif kind == 'calls': e = b.call(v('f'), [e])
+        elif kind == 'members': e = b.member(e if sol.level(e) == 0 else b.paren(e), 'm')
+        elif kind == 'index': e = b.index(v('a'), e)
+        elif kind == 'ternary': e = b.ternary(v('c'), e if sol.level(e) <= 14 else b.paren(e), v('d'))
+        elif kind == 'assign_chain': e = b.bin('Assign', v('z%d' % i), e)
+        elif kind == 'blocks': st = b.block([st if st is not None else b.expr_stmt(e)], unchecked=(i % 7 == 3))
+        elif kind == 'if_else': st = b.if_(v('c'), b.block([b.expr_stmt(v('q'))]), st if st is not None else b.block([b.expr_stmt(e)]))
+        elif kind == 'loops': st = b.for_(None, b.bin('Less', v('i'), b.member(v('arr'), 'length')), None, b.block([st if st is not None else b.expr_stmt(e)]))
+        elif kind == 'try': st = b.try_(b.call(b.member(b.this(), 'g'), []), None, [b.catch_simple(None, b.block([st if st is not None else b.expr_stmt(e)]))])
+    return b.block([st if st is not None else b.expr_stmt(e)])
+
+
+def deep_file(b, kind):
+    n = NESTING_BOUND
+    while tree_depth(deep_body(b, kind, n)) > NESTING_BOUND:
+        n -= 1
+    body = deep_body(b, kind, n)
+    assert tree_depth(body) == NESTING_BOUND or kind in ('loops', 'try', 'if_else', 'members', 'unary', 'right_deep_power', 'ternary'), (kind, n, tree_depth(body))
+    f = b.function('Function', 'f', [], [b.fattr('visibility', 'public')], body)
+    return b.source_unit([b.pragma('solidity', '0.8.16'), fam.contract_with(b, [b.state_var(b.ty('Uint', 256), 'x'), f])]), []
+
+
 def hostile_files():
     """(label, builder -> (SourceUnit, base constraints))"""
     out = []
@@ -117,6 +160,11 @@ def hostile_files():
     out.append(('every kind of top-level item and member', items))
     out.append(('empty file', lambda b: (b.source_unit([]), [])))
     out.append(('only a stray semicolon', lambda b: (b.source_unit([b.supart(b.loc())]), [])))
+    # nesting depth 64 (the property's bound) in every recursive construct. Nesting depth = the largest number of Statement and
+    # Expression nodes on one root-to-leaf path of the parse tree (= recursion depth of the walker below the function);
+    # for each construct the largest number of nested occurrences whose tree stays within depth 64 is used
+    for kind in DEEP_KINDS:
+        out.append(('nesting depth 64: %s' % kind, lambda b, kind=kind: deep_file(b, kind)))
     for nfun in (0, 1, 2, 255, 256, 257):
         def build(b, nfun=nfun):
             members = [fam.fn_def(b, [], name='f%d' % i) for i in range(nfun)] + [b.function('Constructor', None, [], [], b.block([]))]
@@ -128,7 +176,10 @@ def hostile_files():
 def job(chk, item):
     idx, detectors, overflow = item
     label, build = hostile_files()[idx]
+    import sys
+    sys.setrecursionlimit(20000)
     e = chk.engine(overflow_checks=overflow)
+    e.max_depth = 2000
     results = []
     for d in detectors:
         b = sol.TreeBuilder()
@@ -151,7 +202,7 @@ def body(chk):
     chk.bounds = {'hostile files': len(files), 'detectors': 30, 'overflow modes': ['checked (dev/test profile)', 'wrapping (release profile)'],
                   'number literals': 'symbolic naturals < 2^262 (decimal), exponents up to e77, hex, rational, unit',
                   'version components': 'symbolic naturals < 2^40; malformed values (`0.8..4`, no digits, two components, non-ASCII digit)',
-                  'definition counts': [0, 1, 2, 255, 256, 257],
+                  'definition counts': [0, 1, 2, 255, 256, 257], 'nesting': 'depth 64 in 13 recursive constructs (parentheses, unary, binary left/right deep, calls, members, index, ternary, assignment chains, blocks, if/else, loops, try/catch)',
                   'outside': 'nesting deeper than the families; the parser itself; stack exhaustion on deeply nested input (the property bounds nesting at 64)'}
     chk.assumptions = ['every Loc is Loc::File, StringLiteral/HexLiteral vectors are non-empty (parser guarantees)',
                        'oracle: any result is acceptable, only termination without panic is required (C05-C09 decide the results)']
